@@ -17,7 +17,15 @@ import common  # noqa: E402
 
 RLIMIT = 60
 MIN_FUNCTIONS = 1
-FILES = {"C01": ["src/checks.rs", "src/checks/*.rs", "src/parser.rs", "src/parser/*.rs", "src/format.rs"]}
+FILES = {
+    "C01": ["src/checks.rs", "src/checks/*.rs", "src/parser.rs", "src/parser/*.rs", "src/format.rs"],
+    "C02": ["src/eval.rs", "src/values.rs", "src/env.rs", "src/types.rs", "src/garden_type.rs", "src/namespaces.rs"],
+    "C28": ["src/lsp.rs", "src/completions.rs", "src/signature_help.rs", "src/hover.rs", "src/go_to_def.rs", "src/pos_to_id.rs",
+            "src/highlight.rs", "src/rename.rs", "src/caret_finder.rs"],
+}
+# functions sliced elsewhere (unit indices: one argument-index slice per built-in arm, with its own assumptions)
+EXCLUDE = {("src/eval.rs", "eval_built_in_call"), ("src/eval.rs", "eval_built_in_method_call")}
+ARITY_FN = "check_arity"      # eval.rs: `check_arity(name, receiver, pos, N, &arg_positions, &arg_values)?` (contract proved in unit restore)
 
 ASSUMPTIONS = {
     "nondet": "a dropped condition may go either way", "nondet_u8": "a dropped match may take any arm",
@@ -63,12 +71,25 @@ ALLOWED_PANIC = {
     ("src/format.rs", "visit_expr_"): (1, "unreachable!() in the arm for expression kinds the visitor dispatches elsewhere"),
     ("src/format.rs", "is_likely_type_name"): (1, "text.chars().next().unwrap(): symbol names are non-empty"),
 }
-ALLOWED_INDEX = []
-UNVERIFIED = {"C01": [
-    "guard slices: %d explicit panic sites that exist today are assumed dead and are not obligations (forward-progress assertions of the parser, pops after a peek, scope stacks: listed with reasons in units/guards/unit.py ALLOWED_PANIC); every other unreachable!/panic!/todo!/unimplemented!/assert!/unwrap()/expect() in the front-end files is an obligation" % sum(n for (n, _w) in ALLOWED_PANIC.values()),
-    "guard slices keep only tests of the form `V.len() <op> N` / `V.is_empty()` on the indexed expression itself (and windows(N) / chunks_exact(N) items); an index that is safe for another reason (a length derived arithmetically, a test on an alias) fails its obligation and has to be listed; computed indexes (`v[i]`), slicing (`&s[a..b]`), arithmetic overflow and recursion depth are not covered by these slices",
+import json as _json  # noqa: E402
+for _rel, _fns in _json.load(open(os.path.join(HERE, "allowed_panic.json"))).items():
+    for _fn, _d in _fns.items():
+        if (_rel, _fn) not in EXCLUDE:
+            ALLOWED_PANIC[(_rel, _fn)] = (_d["n"], "; ".join(sorted({x["why"] for x in _d["sites"]})))
+ALLOWED_INDEX = [
+    (r"src/env\.rs", r"diags\[0\]", "fresh_prelude: inside the message of an assert_eq!(diags.len(), 0, ..): evaluated only when the assertion has already failed"),
+]
+_COMMON_UNVERIFIED = [
+    "guard slices keep only tests of the form `V.len() <op> N` / `V.is_empty()` / `match V.len() { .. }` on the indexed expression itself, `check_arity(.., N, &arg_positions, &arg_values)?` in eval.rs (contract proved in unit restore; that both vectors have the same length is its precondition) and windows(N) / chunks_exact(N) items; computed indexes (`v[i]`), slicing (`&s[a..b]`), arithmetic overflow and recursion depth are not covered by these slices",
     "that a vector's length changes only through the listed mutating methods, assignment, `&mut` borrows or rebinding of its root name (calls that receive `&mut` to an enclosing struct are not tracked)",
-]}
+]
+UNVERIFIED = {"C02": [
+    "guard slices (evaluator files): the explicit panic sites that exist today (74, listed with reasons in units/guards/allowed_panic.json: value-stack pops, dispatch arms, mutex locks) are assumed dead and are not obligations; any other panic site in these files is; eval_built_in_call / eval_built_in_method_call are sliced per arm in unit indices instead",
+] + _COMMON_UNVERIFIED, "C28": [
+    "guard slices (language-server files): only reftest_lsp's two `to_string_pretty(..).unwrap()` are assumed; any other panic site in lsp.rs, completions.rs, signature_help.rs, hover.rs, go_to_def.rs, pos_to_id.rs, highlight.rs, rename.rs, caret_finder.rs is an obligation",
+] + _COMMON_UNVERIFIED, "C01": [
+    "guard slices: %d explicit panic sites that exist today are assumed dead and are not obligations (forward-progress assertions of the parser, pops after a peek, scope stacks: listed with reasons in units/guards/unit.py ALLOWED_PANIC); every other unreachable!/panic!/todo!/unimplemented!/assert!/unwrap()/expect() in the front-end files is an obligation" % sum(n for (n, _w) in ALLOWED_PANIC.values()),
+]+ _COMMON_UNVERIFIED}
 
 
 def _hint_matrix():
@@ -102,6 +123,19 @@ WITNESSES = [
     {"match": r"guards\.", "kind": "frontend-nopanic", "props": ["C01"], "input": _MATRIX, "expect": {}, "timeout": 600,
      "note": "type hints of every built-in constructor with 0..3 arguments against literals of every shape; truncated and odd inputs"},
 ]
+_PRELUDES = ["src/__prelude.gdn", "src/__random.gdn", "src/__time.gdn", "src/__reflect.gdn"]
+WITNESSES.append({"match": r"guards\.g_(eval|values|env|types|garden_type|namespaces)__", "kind": "builtin-args", "props": ["C02"], "input": "", "preludes": _PRELUDES,
+                  "skip": ["read_line"], "min_inputs": 100, "timeout": 120, "expect": {}, "note": "every prelude built-in with wrongly typed arguments and wrong arity"})
+WITNESSES.append({"match": r"guards\.g_(eval|values|env|types|garden_type|namespaces)__", "kind": "run", "props": ["C02"], "timeout": 60,
+                  "input": "enum Shape { Circle(Int), Square }\nlet c = Circle(1)\nprintln(string_repr(c))\nprintln(string_repr(Square))\nprintln(string_repr(Some))\nprintln(string_repr([Circle]))\nstruct P { x: Int }\nprintln(string_repr(P{ x: 1 }))\nprintln(string_repr((1, \"a\", [None])))\nprintln(string_repr(Dict[\"k\" => Ok(1)]))\nprintln(string_repr(fun(x) { x }))\nprintln(\"done\")\n",
+                  "expect": {"stdout_contains": "done"}, "note": "enum constructors, values of every kind displayed"})
+WITNESSES.append({"match": r"guards\.g_(eval|values|env|types|garden_type|namespaces)__", "kind": "run", "props": ["C02"], "timeout": 60,
+                  "input": "enum Shape { Circle(Int), Square }\nCircle()\n", "expect": {"stderr_contains": "Exception"}, "note": "enum constructor with no argument"})
+WITNESSES.append({"match": r"guards\.g_(eval|values|env|types|garden_type|namespaces)__", "kind": "run", "props": ["C02"], "timeout": 60,
+                  "input": "enum Shape { Circle(Int), Square }\nCircle(1, 2)\n", "expect": {"stderr_contains": "Exception"}, "note": "enum constructor with two arguments"})
+_SWEEP = common.lsp_sweep_witnesses(r"guards\.g_(lsp|completions|signature_help|hover|go_to_def|pos_to_id|highlight|rename|caret_finder)__", ["C28"])
+WITNESSES.append({"match": r"guards\.g_(lsp|completions|signature_help|hover|go_to_def|pos_to_id|highlight|rename|caret_finder)__", "kind": "lsp-sweep", "props": ["C28"],
+                  "input": _SWEEP, "expect": {}, "timeout": 600, "note": "position sweeps over %d documents" % len(_SWEEP)})
 BOUNDED = [
     {"name": "hint_and_shape_matrix", "kind": "frontend-nopanic", "props": ["C01"], "input": _MATRIX, "n_inputs": len(_MATRIX),
      "bound": "%d generated programs (type hints of every built-in constructor with 0..3 arguments in annotation, return, parameter and generic position against literals of every shape; match shapes; enum / struct / type-parameter corner cases; truncated inputs): check, format and reftest-ast must not crash on any" % len(_MATRIX),
@@ -113,8 +147,9 @@ def build(tier):
     u = UnitFile("guards")
     u.raw(common.HEADER)
     u.raw(guardslice.GLUE, kind="prelude")
-    n_fns = n_idx = n_panic = n_allowed = n_tests = 0
+    total = 0
     for prop, pats in FILES.items():
+        n_fns = n_idx = n_panic = n_allowed = n_tests = 0
         props = {prop}
         rels = []
         for pat in pats:
@@ -125,8 +160,10 @@ def build(tier):
             stem = re.sub(r"\W+", "_", rel[len("src/"):-len(".rs")])
             ai = [rx for (g, rx, _why) in ALLOWED_INDEX if re.fullmatch(g, rel)]
             for it in src.all_fns():
+                if (rel, it.name) in EXCLUDE:
+                    continue
                 gname = "g_%s__%s" % (stem, it.name.replace("#", "_"))
-                lines, sl = guardslice.slice_function(src, it, gname, ALLOWED_PANIC.get((rel, it.name), (0, ""))[0], ai)
+                lines, sl = guardslice.slice_function(src, it, gname, ALLOWED_PANIC.get((rel, it.name), (0, ""))[0], ai, arity_fn=ARITY_FN)
                 if lines is None:
                     continue
                 u.fn_props[gname] = props
@@ -141,10 +178,11 @@ def build(tier):
                 n_panic += sl.n_panic
                 n_allowed += sl.n_allowed
                 n_tests += sl.n_len_tests
-        u.clauses.append(("guards.every_literal_index_is_below_a_tested_length_and_no_panic_site_is_reached", props,
+        total += n_fns
+        u.clauses.append(("guards.%s.every_literal_index_is_below_a_tested_length_and_no_panic_site_is_reached" % prop, props,
                           "%d functions, %d literal indexes, %d panic sites as obligations, %d listed sites assumed, %d length tests kept" % (n_fns, n_idx, n_panic, n_allowed, n_tests)))
-    if n_fns < 3:
-        raise ExtractError("only %d functions with literal indexes or panic sites found" % n_fns)
+    if total < 30:
+        raise ExtractError("only %d functions with literal indexes or panic sites found" % total)
     u.add_canary_proof()
     u.raw(common.FOOTER)
     return u
